@@ -771,7 +771,11 @@ impl Eraser {
             // a spread operand must be materialised once (`t = [...x]`): spreading `x` again would iterate it twice
             if r["spread"] == json!(true) {
                 let ex = &r["expression"];
-                let ok = self.temp_name(ex).is_some() || is_lit_node(ex);
+                // a temporary must hold the single materialised expansion `[...x]`
+                let materialised = self.temp_name(ex).and_then(|t| self.env.get(t)).map(|b| {
+                    ty(&b.raw) == "ArrayExpression" && b.raw["elements"].as_array().map(|a| a.len() == 1 && a[0]["spread"] == json!(true)).unwrap_or(false)
+                });
+                let ok = materialised == Some(true) || is_lit_node(ex);
                 if !ok && equal_ignoring_meta(e, r) {
                     return soft("hook-args-spread-twice", format!("hook {name} ({kind}): operand {i} spreads {} again instead of a temporary holding its single expansion", brief(ex)));
                 }
